@@ -478,6 +478,16 @@ func init() {
 				// only the library's documented template constants (an arbitrary id would be caller misuse)
 				tmpl := []document.TableStyleTemplate{document.TableStyleTemplateNormal, document.TableStyleTemplateGrid, document.TableStyleTemplateList, document.TableStyleTemplateColorful1, document.TableStyleTemplateColumns2, document.TableStyleTemplateRows3, document.TableStyleTemplatePlain1, ""}[r.Intn(8)]
 				cfg := &document.TableStyleConfig{Template: tmpl, FirstRowHeader: r.Bool(), LastRowTotal: r.Bool(), FirstColumnHeader: r.Bool(), BandedRows: r.Bool(), BandedColumns: r.Bool()}
+				if r.Chance(1, 3) {
+					// a table style of the caller's own, created through the helper the library offers for it (on new, opened and
+					// rendered documents alike)
+					var sh *document.ShadingConfig
+					if r.Bool() {
+						sh = &document.ShadingConfig{Pattern: "clear", BackgroundColor: "EEEEEE"}
+					}
+					t.CreateCustomTableStyle("CustTbl"+gen.Word(r, 1, 3), s.Str(), &document.TableBorderConfig{Top: border(r), Bottom: border(r)}, sh, r.Bool())
+					break
+				}
 				t.ApplyTableStyle(cfg)
 			case 9:
 				t.SetTableBorders(&document.TableBorderConfig{Top: border(r), Left: border(r), Bottom: border(r), Right: border(r), InsideH: border(r), InsideV: border(r)})
